@@ -287,4 +287,51 @@ theorem isdigit_false_of_mem {s : Str} {c : Nat} (hc : c ∈ s) (hn : isdigitCha
   have := List.all_eq_true.mp hall c hc
   simp [hn] at this
 
+/-! ### strip -/
+
+theorem dropWhile_idem (p : Nat → Bool) (l : Str) : (l.dropWhile p).dropWhile p = l.dropWhile p := by
+  induction l with
+  | nil => rfl
+  | cons a as ih =>
+    by_cases h : p a = true
+    · simp [h, ih]
+    · simp [h]
+
+theorem dropWhile_eq_self_of_head (p : Nat → Bool) (x : Nat) (l : Str) (h : p x = false) :
+    (x :: l).dropWhile p = x :: l := by simp [h]
+
+theorem head_dropWhile_false (p : Nat → Bool) (s : Str) (x : Nat) (l : Str) (h : s.dropWhile p = x :: l) :
+    p x = false := by
+  induction s with
+  | nil => simp at h
+  | cons a as ih =>
+    by_cases ha : p a = true
+    · simp [ha] at h; exact ih h
+    · simp [ha] at h
+      obtain ⟨h1, _⟩ := h
+      subst h1
+      simpa using ha
+
+theorem stripBy_idem (p : Nat → Bool) (s : Str) : stripBy p (stripBy p s) = stripBy p s := by
+  unfold stripBy
+  generalize hu : s.dropWhile p = u
+  generalize hw : u.reverse.dropWhile p = w
+  have hsuf : w <:+ u.reverse := by rw [← hw]; exact List.dropWhile_suffix p
+  obtain ⟨a, ha⟩ := hsuf
+  have hu' : u = w.reverse ++ a.reverse := by
+    have := congrArg List.reverse ha
+    simpa using this.symm
+  have h1 : w.reverse.dropWhile p = w.reverse := by
+    cases ht : w.reverse with
+    | nil => rfl
+    | cons x t' =>
+      rw [ht] at hu'
+      have hx : p x = false := head_dropWhile_false p s x (t' ++ a.reverse) (by rw [hu, hu']; rfl)
+      exact dropWhile_eq_self_of_head p x t' hx
+  rw [h1, List.reverse_reverse]
+  have h2 : w.dropWhile p = w := by rw [← hw]; exact dropWhile_idem p _
+  rw [h2]
+
+theorem strip_idem (s : Str) : strip (strip s) = strip s := stripBy_idem _ s
+
 end XknxVerif.Py.Str
